@@ -29,6 +29,9 @@ type Ticket struct {
 	ch    chan struct{}
 }
 
+// Goid returns the id of the parked goroutine.
+func (t *Ticket) Goid() uint64 { return t.goid }
+
 // Key returns the stable sort key / trace name of the ticket.
 func (t *Ticket) Key() string {
 	l := t.Label
@@ -79,6 +82,9 @@ type Ctl struct {
 	DeferAt int
 	// StepLimit is set when MaxSteps was exceeded.
 	StepLimit bool
+
+	// AfterWait runs on the controller after every quiescence wait (before invariants).
+	AfterWait func()
 
 	onGrant    func(t *Ticket)
 	invariants []func() string
@@ -258,6 +264,27 @@ func (c *Ctl) Adopt(label string) {
 	c.mu.Unlock()
 }
 
+// LabelGoid names a (library-spawned) goroutine by id; parked tickets of that
+// goroutine are relabelled too.
+func (c *Ctl) LabelGoid(g uint64, label string) {
+	c.mu.Lock()
+	c.labels[g] = label
+	for _, t := range c.tickets {
+		if t.goid == g {
+			t.Label = label
+		}
+	}
+	c.mu.Unlock()
+}
+
+// LabelOfCaller returns the label of the calling goroutine ("" if none).
+func (c *Ctl) LabelOfCaller() string {
+	g := Goid()
+	c.mu.Lock()
+	defer c.mu.Unlock()
+	return c.labels[g]
+}
+
 // Unadopt removes the label of the calling goroutine.
 func (c *Ctl) Unadopt() {
 	g := Goid()
@@ -278,6 +305,9 @@ func (c *Ctl) Invariant(f func() string) { c.invariants = append(c.invariants, f
 // Wait waits for quiescence and evaluates the step invariants.
 func (c *Ctl) Wait() {
 	synctest.Wait()
+	if c.AfterWait != nil {
+		c.AfterWait()
+	}
 	if c.Fail == "" {
 		for _, inv := range c.invariants {
 			if m := inv(); m != "" {
